@@ -24,7 +24,7 @@ BUILDS = {"norm": [],
           "noinl": ["-DMIR_MAX_INSNS_FOR_INLINE=0", "-DMIR_MAX_INSNS_FOR_CALL_INLINE=0"],
           "always": ["-DMIR_MAX_INSNS_FOR_INLINE=100000", "-DMIR_MAX_INSNS_FOR_CALL_INLINE=100000",
                      "-DMIR_MAX_CALLER_SIZE_FOR_ANY_GROWTH_INLINE=3000"]}
-ENGINES = ["interp", "gen1"]
+ENGINES = ["interp", "gen0", "gen1"]
 DRV = os.path.join(LEAN, ".lake", "build", "bin", "mirdrv_c04")
 C01_KNOWN_ABORT = re.compile(r"Fatal failure in matching insn:\s+\w+s\s+hr\d+, hr\d+, i64:")
 OVF_BR = ("bo", "bno", "ubo", "ubno")
@@ -50,8 +50,8 @@ def read_round_always():
     try:
         t = open(os.path.join(LEAN, "MirVerif", "Gen", "C04_Tables.lean")).read()
     except OSError:
-        return "010"
-    return "".join("1" if f"def {n} : Bool := true" in t else "0" for n in ("roundAlways", "muloRow", "freshRets"))
+        return "0100"
+    return "".join("1" if f"def {n} : Bool := true" in t else "0" for n in ("roundAlways", "muloRow", "freshRets", "ovfAddrBefore"))
 
 
 # ------------------------------------------------------------------ observations
